@@ -69,6 +69,13 @@ impl Channel {
 
         (*request.headers_mut()) = headers;
 
+        // Verification only: a client that re-dials a closed connection (see `LazyClient`).
+        #[cfg(all(feature = "simulation", datacake_verif))]
+        #[allow(unreachable_code)]
+        {
+            return self.connection.send_redialing(request).await;
+        }
+
         #[cfg(not(feature = "simulation"))]
         let resp = self.connection.request(request).await?;
         #[cfg(feature = "simulation")]
